@@ -9,6 +9,7 @@
   Spec:  Qfx.Spec.Framer.framesWhole — frames and terminal error as a function of the whole byte stream.
 -/
 import Qfx.Lemmas.Framer
+import Qfx.Lemmas.FramerExact
 open Qfx Qfx.Framer Qfx.Spec
 
 /-- "The sequence of message frames (and the terminal error) extracted from a byte stream depends only on the
@@ -31,6 +32,31 @@ theorem C12_any_two_partitions (e1 e2 : Bool) (cs1 cs2 : List Bytes) (h : cs1.fl
     framesChunked e1 cs1 = framesChunked e2 cs2 := by
   rw [C12_chunk_independent, C12_chunk_independent, h]
 
+/-- "For a stream made of well-formed messages separated by arbitrary bytes that do not contain a BeginString marker,
+    the frames are exactly those messages, in order and byte-identical" (and the stream ends with EOF).
+    `ps.ok`: every message satisfies `wfFrame` ("8=" v SOH "9=" decimal |body| SOH body "10=" ck SOH, body ending with SOH,
+    v and ck free of SOH — the CheckSum value itself is irrelevant to the framer), every separator — including the
+    leading and the trailing one, each taken as a whole — has no "8=".  A separator may end with '8', contain SOH,
+    "10=", "9=" …; bodies are arbitrary (they may contain "8=", SOH "10=", SOH "9="). -/
+theorem C12_exact (ps : Parts) (h : ps.ok = true) :
+    framesWhole ps.stream = { frames := ps.msgs, end_ := .err "eof" } :=
+  framesWhole_parts ps.ms ps.j0 h
+
+/-- … under every partition of that stream into reads -/
+theorem C12_exact_chunked (ps : Parts) (h : ps.ok = true) (eofd : Bool) (cs : List Bytes) (hcs : cs.flatten = ps.stream) :
+    framesChunked eofd cs = { frames := ps.msgs, end_ := .err "eof" } := by
+  rw [C12_chunk_independent, hcs, C12_exact ps h]
+
+/-- the grammar `wfFrame` accepts exactly looks like this (so the hypothesis of `C12_exact` is the stated one) -/
+theorem C12_wfFrame_shape (m : Bytes) (h : wfFrame m = true) :
+    ∃ v ds body' ck, m = frameThen v ds body' ck [] ∧ (∀ x ∈ v, x ≠ 1) ∧ ds ≠ [] ∧ ds.all isDigit = true ∧
+      digitsVal ds = body'.length + 1 ∧ (∀ x ∈ ck, x ≠ 1) ∧ m.length < 9223372036854775807 :=
+  wfFrame_shape m h
+
+/-- the decomposition the monitor builds from the tokens of a `parts` op is a decomposition of the very stream read -/
+theorem C12_parts_stream (toks : List (Bool × Bytes)) : (mkParts toks).stream = (toks.map (·.2)).flatten :=
+  mkParts_stream toks
+
 /-- framer part of C09: whatever the bytes and the chunking, the parser does not panic (no slice expression out of
     range, none reading stale bytes between len and cap) and never asks the reader for zero bytes (which would spin);
     termination of every loop is by construction (`findIdx`: well-founded on unread chunks, `runG`: on buffered +
@@ -46,6 +72,15 @@ theorem C12_ends_with_error (eofd : Bool) (cs : List Bytes) : ∃ c, (framesChun
   | err c => exact ⟨c, rfl⟩
   | fault w => exact (C12_no_fault eofd cs w h).elim
 
+/-! non-vacuity: a Heartbeat is a well-formed frame; junk ending in '8' is a legal separator; two reads that cut
+    the message inside "9=" give that message -/
+example : wfFrame (asciiOf "8=FIX.4.2\x019=5\x0135=0\x0110=161\x01") = true := by decide
+example : noBegin (asciiOf "\r\n=8 8") = true := by decide
+example : noBegin (asciiOf "x8=") = false := by decide
+example : framesChunked true [asciiOf "zz88=FIX.4.2\x019", asciiOf "=5\x0135=0\x0110=161\x01 8"] =
+    { frames := [asciiOf "8=FIX.4.2\x019=5\x0135=0\x0110=161\x01"], end_ := .err "eof" } :=
+  C12_exact_chunked ⟨asciiOf "zz8", [(asciiOf "8=FIX.4.2\x019=5\x0135=0\x0110=161\x01", asciiOf " 8")]⟩ (by decide) true _ (by decide)
+
 /-- the defect repaired by the `fix:` commit: with the original arithmetic `offset + length` wraps negative … -/
 theorem C12_orig_overflow_witness : wrap64 ((15 : Int) + 9223372036854775807) < 0 := by decide
 
@@ -53,3 +88,21 @@ theorem C12_orig_overflow_witness : wrap64 ((15 : Int) + 9223372036854775807) < 
 theorem C12_orig_negative_offset_faults (off : Int) (h : off < 0) (d : Bytes) (p : P) :
     findIndexAfterOffset off d p = .fault "slice bounds out of range" := by
   simp [findIndexAfterOffset, h]
+
+/-
+  Clause checklist (property text → theorem)
+  * "frames (and the terminal error) depend only on the stream's content, not on how it is split into reads"
+        C12_chunk_independent (all chunk lists, empty reads, both EOF conventions), C12_any_two_partitions
+  * "for every partition … one byte at a time, split inside tags, lengths and checksums, chunks larger than the
+     internal buffer, messages larger than the buffer"
+        the same theorems: `cs` is arbitrary; a chunk larger than the room is served in pieces by `Reader.read`;
+        the buffer grows by `grow` for frames larger than bigBuffer
+  * "well-formed messages separated by arbitrary bytes without a BeginString marker ⇒ frames are exactly those
+     messages, in order and byte-identical"
+        C12_exact, C12_exact_chunked (with C12_wfFrame_shape: what counts as well-formed)
+  * C09 (framer part) "no panic / no hang"
+        C12_no_fault, C12_ends_with_error; termination: `findIdx`, `runG`, `framesWholeG` are total functions
+        accepted by Lean's termination checker (well-founded on unread chunks / buffered+unread bytes)
+  * the tree before the fix: C12_chunk_independent_orig (still chunk independent), C12_orig_overflow_witness +
+    C12_orig_negative_offset_faults (why it panicked)
+-/
